@@ -450,9 +450,12 @@ def run_world(plan, keep_log=False):
                         t.done for t in sender_tasks.values()), None,
                         'wait_resp')
                 elif name == 'wait_idle':
-                    # every indication that was put into a queue has been
-                    # taken out and completely processed (task_done)
-                    sch.block(lambda: all(
+                    # no request is on its way any more (also not the one
+                    # of a sender that vanished without reading the
+                    # response), and every indication that was put into a
+                    # queue has been taken out and completely processed
+                    # (task_done)
+                    sch.block(lambda: nw.quiet() and all(
                         not q.q and q.unfinished_tasks == 0
                         for q in sch.queues), None, 'wait_idle')
                 elif name == 'join_senders':
